@@ -6,6 +6,7 @@ import (
 	"bytes"
 	"encoding/binary"
 	"fmt"
+	"sort"
 	"strconv"
 	"strings"
 )
@@ -196,6 +197,24 @@ type Reply struct {
 	Terms     int    `json:"terms"`            // terminators seen
 	Frames    int    `json:"frames"`           // reply frames / lines attributed
 	Malformed string `json:"malformed,omitempty"`
+}
+
+// Canon renders the reply with values in a canonical order: the order of VALUE blocks within one
+// get reply is not part of what the properties compare (clients match values by key / opaque).
+func (r Reply) Canon() string {
+	c := r
+	c.Hits = append([]Hit(nil), r.Hits...)
+	sort.Slice(c.Hits, func(i, j int) bool {
+		a, b := c.Hits[i], c.Hits[j]
+		if a.Idx != b.Idx {
+			return a.Idx < b.Idx
+		}
+		if a.Key != b.Key {
+			return a.Key < b.Key
+		}
+		return a.Val < b.Val
+	})
+	return c.String()
 }
 
 func (r Reply) String() string {
